@@ -23,15 +23,18 @@ META = {
 }
 
 
-def windows(S):
+def windows(S, tier="thorough"):
     s = set(range(S - 64, S + 65)) | set(range(2 * S - 32, 2 * S + 33)) | set(range(3 * S - 16, 3 * S + 17)) | {1, 2, 3, 4, S // 2}
+    if S == 4000 and tier != "thorough":
+        # quick: the 1x window completely, every 8th size of the 2x / 3x windows (the 500-byte connection covers those completely)
+        s = set(range(S - 64, S + 65)) | set(range(2 * S - 32, 2 * S + 33, 8)) | set(range(3 * S - 16, 3 * S + 17, 8)) | {1, 2, 3, 4, S // 2}
     return sorted(x for x in s if x > 0)
 
 
-def build_world(S, elem, struct_size, name_len, pers, choices=("rfrag",)):
+def build_world(S, elem, struct_size, name_len, pers, choices=("rfrag",), tier="thorough"):
     import pycomm3
 
-    sizes = windows(S)
+    sizes = windows(S, tier)
     proj = projgen.p5_ladder(sizes, elem=elem, struct_size=struct_size, name_len=name_len)
     fill_image(proj, 0)
     ctl = logix.LogixController(proj, pers, None, choices=choices)
@@ -90,7 +93,7 @@ def run_shard(shard, tier, seed):
     kind = shard[0]
     if kind == "ladder":
         _, S, pers, elem, ss, nl = shard
-        proj, ctl, t, w, d, r = build_world(S, elem or "DINT", ss, nl, pers)
+        proj, ctl, t, w, d, r = build_world(S, elem or "DINT", ss, nl, pers, tier=tier)
         cfg = (S, pers, elem or f"struct{ss}", nl)
         if r != ("ok", True):
             rep.case((cfg, "open"), outcome="open-failed")
@@ -234,7 +237,7 @@ def run_shard(shard, tier, seed):
 
 def replay(r):
     sh = tuple(r["shard"])
-    rep = run_shard(sh, "quick", 0)
+    rep = run_shard(sh, "thorough" if r.get("tier") == "thorough" else "quick", 0)
     hit = False
     for s, vs in rep.violations.items():
         for v in vs:
